@@ -277,6 +277,11 @@ pub fn gen_case(rng: &mut Rng, idx: usize, thorough: bool) -> Value {
     let depth_budget = if thorough { 3000 } else { 1200 };
     if idx < nc { return json!({"kind": "corpus", "i": idx, "budget": depth_budget}); }
     if idx < nc + 3 { return json!({"kind": "param", "i": idx - nc, "budget": depth_budget}); }
+    if idx % 5 == 4 {
+        // Earley rows only: Lark grammars with regex lexemes and %ignore, JSON schemas (whitespace skip lexeme)
+        let g = if rng.chance(1, 2) { crate::eng::gen_grammar(rng, idx).0.to_json() } else { json!({"json_schema": crate::c07::gen_root(rng)}) };
+        return json!({"kind": "rows-any", "grammar": g, "seed": rng.next() % 1_000_000_000});
+    }
     if idx % 2 == 0 { return json!({"kind": "nullable-web", "seed": rng.next() % 1_000_000_000, "budget": 300}); }
     json!({"kind": "random", "seed": rng.next() % 1_000_000_000, "budget": depth_budget})
 }
@@ -331,6 +336,16 @@ fn expected_bits(w: &Walk, s: &[u8]) -> String {
 
 pub fn run_case(_ctx: &Ctx, case: &Value, tag: usize, rep: &mut Report, mb: &mut ModelBatch) {
     rep.evaluations += 1;
+    if case["kind"] == "rows-any" {
+        let g = Gram::from_json(&case["grammar"]);
+        let sb = vocab::single_byte_words();
+        let eos = sb.len() as u32 - 1;
+        let Ok(world) = World::new(sb, eos, false, None) else { rep.skip("world"); return; };
+        rep.count("family.rows-any");
+        earley_tie(&world, &g, &[], case["seed"].as_u64().unwrap_or(3), tag, rep, mb);
+        rep.nontrivial(case["grammar"].to_string());
+        return;
+    }
     let (lark, plain, mut sigma, name) = match case["kind"].as_str().unwrap_or("") {
         "corpus" => { let c = corpus().swap_remove(case["i"].as_u64().unwrap() as usize); (c.1, c.2, c.3, c.0.to_string()) }
         "param" => { let (l, r, s) = parametric(case["i"].as_u64().unwrap() as usize); (l, r, s, "parametric".to_string()) }
@@ -406,32 +421,54 @@ pub fn run_case(_ctx: &Ctx, case: &Value, tag: usize, rep: &mut Report, mb: &mut
 
 fn csv<T: std::fmt::Display>(v: impl Iterator<Item = T>) -> String { let s: Vec<String> = v.map(|x| x.to_string()).collect(); if s.is_empty() { "-".into() } else { s.join(",") } }
 
-fn earley_tie(world: &World, g: &Gram, sigma: &[u8], seed: u64, tag: usize, rep: &mut Report, mb: &mut ModelBatch) {
+pub fn earley_tie(world: &World, g: &Gram, sigma: &[u8], seed: u64, tag: usize, rep: &mut Report, mb: &mut ModelBatch) {
     let base = world.matcher(g);
+    if base.is_error() { return; }
     let Some(cg) = base.verif_token_parser().map(|tp| tp.parser.grammar().verif_dump()) else { return };
     if cg.parametric || cg.syms.iter().any(|s| s.3) { rep.count("earley.skipped-parametric-or-subgrammar"); return; }
     let syms = cg.syms.iter().map(|(rules, nullable, lexeme, _, _)| format!("{}/{}/{}", if rules.is_empty() { "-".to_string() } else { rules.iter().map(|r| r.to_string()).collect::<Vec<_>>().join("+") }, *nullable as u8, lexeme.map(|l| l.to_string()).unwrap_or("-".into()))).collect::<Vec<_>>().join(";");
     let id = 100_000 + tag;
-    mb.push(format!("ey def {id} {} {} {} {}", cg.start, csv(cg.rhs.iter()), csv(cg.lhs_of.iter()), syms), "ok".into(), tag);
+    mb.push_guard(format!("ey def {id} {} {} {} {}", cg.start, csv(cg.rhs.iter()), csv(cg.lhs_of.iter()), syms), "ok".into(), tag);
     let mut rng = Rng::new(seed ^ 0xe4);
     let mut seen: std::collections::HashSet<Vec<Vec<u32>>> = std::collections::HashSet::new();
     for _walk in 0..6 {
         let mut m = base.deep_clone();
-        for _step in 0..10 {
+        for _step in 0..12 {
             if m.is_stopped() { break; }
             let Some(st) = crate::eng::vstate(&m) else { break };
-            if st.definitive && st.row_infos_len == st.num_rows && seen.insert(st.row_lexemes.clone()) {
-                let lexs = if st.row_lexemes.is_empty() { "-".to_string() } else { st.row_lexemes.iter().map(|l| csv(l.iter())).collect::<Vec<_>>().join("|") };
-                let rows = st.rows.iter().map(|r| if r.is_empty() { "-".to_string() } else { r.iter().map(|(p, s)| format!("{p}:{s}")).collect::<Vec<_>>().join(",") }).collect::<Vec<_>>().join(";");
+            if st.definitive && st.row_infos_len == st.num_rows && st.row_lexemes.len() + 1 == st.rows.len() && seen.insert(st.row_lexemes.clone()) {
+                // skip lexemes (%ignore, JSON whitespace) copy the row: checked here, then removed from the
+                // sequence the model sees, with the start rows of the items renumbered accordingly
+                let is_skip: Vec<bool> = st.row_lexemes.iter().map(|l| l.iter().any(|x| cg.skips.contains(x))).collect();
+                let mut ok = true;
+                for (i, sk) in is_skip.iter().enumerate() {
+                    if *sk && st.rows[i + 1] != st.rows[i] {
+                        rep.fail("oracle", "c05:skip-lexeme-changes-row", format!("row {} after a skip lexeme differs from row {}", i + 1, i), json!({"grammar": g.to_json()}));
+                        ok = false;
+                    }
+                }
+                if !ok { return; }
+                // compressed index of row i = i - number of skip transitions before it
+                let mut cidx = vec![0usize; st.rows.len()];
+                for i in 0..is_skip.len() { cidx[i + 1] = cidx[i] + if is_skip[i] { 0 } else { 1 }; }
+                let lexs: Vec<String> = st.row_lexemes.iter().zip(is_skip.iter()).filter(|(_, sk)| !**sk).map(|(l, _)| csv(l.iter())).collect();
+                let mut rows: Vec<String> = vec![];
+                for i in 0..st.rows.len() {
+                    if i > 0 && is_skip[i - 1] { continue; }
+                    let mut items: Vec<(u32, usize)> = st.rows[i].iter().map(|(p, s)| (*p, cidx[*s as usize])).collect();
+                    items.sort(); items.dedup();
+                    rows.push(if items.is_empty() { "-".to_string() } else { items.iter().map(|(p, s)| format!("{p}:{s}")).collect::<Vec<_>>().join(",") });
+                }
                 rep.count("earley.states");
-                rep.count_n("earley.rows", st.rows.len() as u64);
-                mb.push(format!("ey rows {id} {lexs}"), format!("ok {rows} acc=?"), tag);
+                rep.count_n("earley.rows", rows.len() as u64);
+                if is_skip.iter().any(|x| *x) { rep.count("earley.states-with-skip-lexeme"); }
+                mb.push(format!("ey rows {id} {}", if lexs.is_empty() { "-".to_string() } else { lexs.join("|") }), format!("ok {} acc=?", rows.join(";")), tag);
             }
             let Ok(mask) = m.compute_mask() else { break };
-            let allowed: Vec<u8> = sigma.iter().copied().filter(|b| mask.is_allowed(*b as u32)).collect();
+            let allowed: Vec<u32> = if sigma.is_empty() { mask.to_list().into_iter().filter(|t| *t < 256).collect() } else { sigma.iter().map(|b| *b as u32).filter(|b| mask.is_allowed(*b)).collect() };
             if allowed.is_empty() { break; }
             let b = allowed[rng.below(allowed.len())];
-            if m.consume_token(b as u32).is_err() { break; }
+            if m.consume_token(b).is_err() { break; }
         }
     }
 }
